@@ -117,7 +117,9 @@ def run(chk):
                              dict(ctx, switches=list(sw), iterations=k + 1, trainer=trainer, floors=thr))
                     break
             if trainer == "ml" and i % 3 == 0:
-                terms.append(gt.make_case(dict(cfg, cap=2), X, None)["term"])
+                cc = gt.make_case(dict(cfg, cap=2), X, None)
+                if cc["well_conditioned"]:
+                    terms.append(cc["term"])
         # ---------------------------------------------------------------- i-vector
         if i % 2 == 0:
             ubm = make_gmm(np.ones(2) / 2, X[:2] + np.array([[0.0] * D, [1.0] * D]), np.ones((2, D)))
